@@ -315,7 +315,8 @@ fn htlc_infos(hs: &[Htlc], tag: u8) -> Vec<HTLCInfo2> {
         .enumerate()
         .map(|(i, h)| {
             let mut b = [tag; 32];
-            b[0] = i as u8 + 1;
+            b[0] = (i & 0xff) as u8;
+            b[1] = (i >> 8) as u8 + 1;
             HTLCInfo2 { value_sat: h.v, payment_hash: PaymentHash(b), cltv_expiry: h.cltv }
         })
         .collect()
